@@ -774,6 +774,30 @@ impl SendBuf {
     }
 }
 
+#[cfg(genmeta_gm_quic_verif)]
+impl SendBuf {
+    /// Read-only dump of the colour map for the verification harness: the boundaries
+    /// `(offset, colour)` (0 = pending, 1 = flighting, 2 = lost, 3 = received), the end of the map
+    /// and the offset of the first byte still buffered.
+    pub fn verif_colours(&self) -> (Vec<(u64, u8)>, u64, u64) {
+        let map = self
+            .state
+            .0
+            .iter()
+            .map(|s| {
+                let colour = match s.color() {
+                    Color::Pending => 0,
+                    Color::Flighting => 1,
+                    Color::Lost => 2,
+                    Color::Recved => 3,
+                };
+                (s.offset(), colour)
+            })
+            .collect();
+        (map, self.state.size(), self.offset)
+    }
+}
+
 #[cfg(test)]
 mod tests {
     use qbase::net::tx::Signals;
